@@ -16,6 +16,7 @@ static int SHARD = 0, NSH = 1;
 static Uci* g_uci;
 static uint64_t g_run_index = 0;
 static bool g_inproc = false;
+static int g_m1_every = 1;   // mates list: take every n-th mate-in-one placement (1 = all)
 
 static bool mine()
 {
@@ -623,8 +624,8 @@ static void list_mates(const std::string& sigspec)
     sub.name = "mates sig " + sigspec;
     bool q = TIER == "quick";
     int maxd = q ? 2 : 3;
-    sub.bound = "every retro-legal placement with a mate in one (refchess): go depth 1.." + std::to_string(maxd) +
-                " on a fresh table, after a depth-4 search of the same position, after a depth-3 search restricted by searchmoves to a non-mating move; half-move clock cycling 0/98/99; every 97th (quick) / 16th placement without mate in one for announcements";
+    sub.bound = std::string(g_m1_every > 1 ? "every " + std::to_string(g_m1_every) + "th" : "every") + " retro-legal placement with a mate in one (refchess): go depth 1.." + std::to_string(maxd) +
+                " (and every placement with a check whose only legal reply is a pawn move) on a fresh table, after a depth-4 search of the same position, after a depth-3 search restricted by searchmoves to a non-mating move; half-move clock cycling 0/98/99; every 97th (quick) / 16th placement without mate in one for announcements";
     uint64_t idx = 0;
     bool done = spaces::enumerate_sig(sp, [&](const ref::Pos& p) {
         ++idx;
@@ -642,7 +643,27 @@ static void list_mates(const std::string& sigspec)
                 break;
             }
         }
-        if (!m1 && (idx % (q ? 97 : 16)) != 0) return true;
+        // "near mates": a checking move after which the opponent has exactly one legal reply - where a slip in
+        // move generation or evaluation turns into a false mate announcement
+        bool near = false;
+        if (!m1)
+            for (auto& m : lm)
+            {
+                ref::make(p, m, t);
+                if (!ref::in_check(t, t.stm)) continue;
+                std::vector<ref::Mv> replies;
+                ref::gen_legal(t, replies);
+                // ... and that reply is a pawn move (double step, en passant, capture by a pawn, promotion): the
+                // special rules, where evasion generation differs from ordinary piece moves
+                if (replies.size() == 1 && ref::lower(t.b[replies[0].from]) == 'p')
+                {
+                    near = true;
+                    break;
+                }
+            }
+        if (near) R.count("near_mate_positions");
+        if (m1 && g_m1_every > 1 && (idx % uint64_t(g_m1_every)) != 0) return true;
+        if (!m1 && !near && (idx % (q ? 97 : 16)) != 0) return true;
         // half-move clock lattice: a mate delivered on the 100th half-move is still a mate
         int clocks[3] = {0, 98, 99};
         ref::Pos pc = p;
@@ -1059,6 +1080,7 @@ int main(int argc, char** argv)
         else if (a == "--deadline") R.deadline_s = atof(argv[++i]);
         else if (a == "--replay") replay = argv[++i];
         else if (a == "--inproc") g_inproc = true;
+        else if (a == "--m1every") g_m1_every = atoi(argv[++i]);
         else if (a == "--seeds")
         {
             FILE* f = fopen(argv[++i], "r");
